@@ -227,6 +227,10 @@ func (g *c17Gen) grammar() []*term.Term {
 				g.use(";")
 				c := g.consumed
 				l := g.seq(2, i, true)
+				if l.IsCmp("->", 2) {
+					// (C -> T) ; R would be an if-then-else, whose else branch is not a top-level alternative
+					l = term.C(",", l, term.Nil)
+				}
 				g.consumed = c
 				body = term.C(";", l, g.seq(2, i, true))
 			} else {
